@@ -45,7 +45,7 @@ class C09(Spec):
     theorems = ["Nun.C09_unauth_noop", "Nun.C09_unauth_line_noop", "Nun.C09_user_management_needs_admin", "Nun.C09_needs_db",
                 "Nun.C09_failed_usedb_keeps_selection", "Nun.C09_permits_is_spec", "Nun.C09_permission_sound",
                 "Nun.C09_secure_key_refused", "Nun.C09_guard_table_pin"]
-    rule = ("full matrix {no auth, wrong password, db token, wrong token, user token} x every command word (argument variants incl. malformed) x "
+    rule = ("near-miss credentials (prefix of the secret, secret plus a suffix, none, other case, moved blanks) for the administrator's password, the database token and the user token, each followed by admin / data probes; a login is only accepted with the credentials the administrator's commands left; full matrix {no auth, wrong password, db token, wrong token, user token} x every command word (argument variants incl. malformed) x "
             "permission lists from subsets of {r,w,i,x} x pattern shapes {k*, *1, contains} x matching / non-matching key, plus permission changes mid-session; "
             "each cell = setup by an admin session, then the probe command on the probing session with a full state dump before and after. "
             "non-trivial = the probe is refused or acts under a non-admin credential; distinct by trace hash")
@@ -100,6 +100,18 @@ class C09(Spec):
             for seq in itertools.product(logins, repeat=n):
                 for pv in ("get zz", "set zz n", "get k1"):
                     cases.append(base_setup("r k*") + ["SESS 2"] + [f"C 2 {l}" for l in seq] + [f"C 2 {pv}", "C 1 keys"])
+        # near-miss credentials: a prefix of the secret, the secret with something after it, no secret at all, a different case, blanks moved —
+        # none of them is the credential, so what follows must be refused exactly as without any
+        near_admin = ["auth adm p", "auth adm", "auth adm ", "auth adm pwx", "auth adm pw x", "auth ad pw", "auth adm PW", "auth admx pw", "auth  adm pw", "auth adm  pw", "auth", "auth pw adm"]
+        admin_probes = ["create-db d2 tk2", "cluster-state", "debug list-dbs", "create-user u3 x", "set-permissions u rwix *", "snapshot false t", "replicate t k1 -1 zz", "replicate-remove t k1", "election win", "join n9"]
+        for na in near_admin:
+            for pv in admin_probes:
+                cases.append(base_setup("r k*") + ["SESS 2", f"C 2 {na}", f"C 2 {pv}", "C 1 keys"])
+            cases.append(base_setup("r k*") + ["SESS 2", "C 2 use-db t tok", f"C 2 {na}", "C 2 get $$token", "C 2 set $$x 1", "C 2 keys", "C 1 keys"])
+        near_token = ["use-db t to", "use-db t tokx", "use-db t", "use-db t ", "use-db t tok x", "use-db t u up", "use-db t u upwx", "use-db t u", "use-db t u ", "use-db t upw", "use-db t u upw x", "use-db t U upw", "use-db t TOK", "use-db t  tok", "use-db T tok", "use-db t u  upw"]
+        for nt in near_token:
+            for pv in ("get k1", "set k1 n", "keys", "remove zz", "increment k1", "watch k1"):
+                cases.append(base_setup("rwix *") + ["SESS 2", f"C 2 {nt}", f"C 2 {pv}", "C 1 set k1 again", "C 1 keys"])
         if tier != "quick":
             rng = core.XorShift(seed)
             for _ in range(20000):
@@ -115,6 +127,7 @@ class C09(Spec):
         fails = []
         steps = core.parse_steps(impl)
         perms = None; cred = "none"; user = False; bound = False; admin2 = False
+        token = "tok"; users = {"u": "upw"}          # the credentials of database t as the administrator's commands leave them
         for i, (inp, rest, dump) in enumerate(steps):
             if not inp.startswith("C "): continue
             _, sid, cmd = inp.split(" ", 2) if inp.count(" ") >= 2 else (inp.split(" ") + [""])[:3]
@@ -126,6 +139,10 @@ class C09(Spec):
             if sid == "1":
                 if word == "set-permissions" and r == "R ok" and cmd.split(" ")[1] == "u": perms = cmd.split(" ", 2)[2]
                 if cmd.strip() == "remove $$permission_$u" and r == "R ok": perms = None     # a user without a list reaches no value
+                pp = cmd.strip("\n").split(" ")
+                if word == "create-user" and r == "R ok" and len(pp) >= 3: users[pp[1]] = cmd.strip("\n").split(" ", 2)[2]
+                if word == "set" and r == "R ok" and len(pp) >= 2 and pp[1].startswith("$$user_"): users[pp[1][len("$$user_"):]] = cmd.strip("\n").split(" ", 2)[2] if len(pp) > 2 else ""
+                if word == "remove" and r == "R ok" and len(pp) >= 2 and pp[1].startswith("$$user_"): users.pop(pp[1][len("$$user_"):], None)
                 continue
             is_err = r.startswith("R error") or r.startswith("R verr")
             prev_dump = steps[i - 1][2] if i > 0 else []
@@ -138,6 +155,12 @@ class C09(Spec):
                 continue
             if word in ("use", "use-db"):
                 if r == "R ok":
+                    # the login must be one the credentials allow: `use-db <db> <token>` or `use-db <db> <user> <user token>`
+                    pp = cmd.strip("\n").rstrip(";").split(" ", 2)
+                    rest2 = pp[2].replace("\n", "").split(" ", 1) if len(pp) > 2 else []
+                    good = len(pp) > 2 and pp[1] == "t" and ((len(rest2) == 1 and rest2[0] == token) or (len(rest2) == 2 and users.get(rest2[0]) == rest2[1]))
+                    if not good and not admin2:
+                        fails.append(Failure("login-accepted-with-wrong-credentials", f"{inp}: {r}; token {token!r}, users {users}")); break
                     bound = True; user = cmd.count(" ") >= 3
                 elif changed:
                     fails.append(Failure("failed-usedb-changed-state", f"{inp}: {changed[:2]}"))
